@@ -18,7 +18,7 @@ import RbModel.Lemmas.GsubMultiMixed
 import RbModel.Lemmas.GsubLigFwd
 import RbModel.Lemmas.GsubLigFlags
 import RbModel.Lemmas.GsubLigMixed
-import RbModel.Lemmas.GsubCtxRule
+import RbModel.Lemmas.GsubCtxFwd
 
 namespace RbModel.Buf
 
@@ -1253,43 +1253,138 @@ example : (match applyString exCtxMask0 exCtxLookup 4 with
 example : (applyLookupFwd exCtxFont 0 exCtxLookup 8 4 ((exCtxMask0.buf.info.take 4).map toG) 0).map (·.gid)
     = [9, 11, 12, 20, 2, 3] := by decide
 
-/-! ### Part 7 — NOT PROVED (statements only; nothing below is claimed)
+/-! ### Part 7, steps 3 and 4: one contextual subtable at the current glyph, and the whole forward scan
 
-  (3) one application of a contextual subtable at the current glyph = `Spec.Subst.applySubtableAt`, as an instance of the
-      per-subtable simulation scheme (`SubSim` of Lemmas/GsubLigMixed.lean, with `StepGood` generalised: the resume index is
-      `out_len + n + 1 + growth`, not `out_len + 1`, the string may grow by `|records| · Gr`, and the invariant carries
-      `CtxG` for the OUT part — `LigInv` constrains the in part only):
+  `CtxStOk f Gr Rn st`: `st` is one of the six contextual subtable kinds (Context / ChainContext formats 1, 2, 3) and every
+  rule `(n, recs)` of it (`Subtable.ctxRules`: `n` input glyphs behind the first) satisfies `RuleOk f Gr Rn n recs`:
+  `n + 1 + |recs| · Gr ≤ MAX_CONTEXT_LENGTH`, `|recs| ≤ Rn`, every nested lookup `NestedSts Gr`.
+  `CtxInv l lm K Rn c` is the invariant of the scan (Lemmas/GsubCtxStep.lean), all of it decidable: the buffer invariant `Inv`,
+  `successful`, `lookup_props = l.props`, `lookup_mask = lm`, not per-syllable, `PRODUCE_UNSAFE_TO_CONCAT` off (else every FAILED
+  match flags the inspected glyphs), `random = false`, `Plain` for the unconsumed input, `CtxG` for every glyph of `out ++ in`,
+  and the two budget potentials `out_len + |in| · (1 + K) ≤ max_len`, `|in| · Rn ≤ max_ops` with `K = Rn · Gr`: every application
+  consumes at least one input glyph, adds at most `K` glyphs and spends at most `Rn` operations. -/
 
-        theorem C06_context_step_refines_spec_NOT_PROVED (st : Subtable) (hst : st is .context1/2/3 or .chain1/2/3, every rule `n + 1 +
-            |records| · Gr ≤ MAX_CONTEXT_LENGTH`, nested lookups `NestedSts Gr`) (c x R …scan invariant…) :
-          match applySubtableAt c.font level c.lookupProps c.lookupMask st ((outP c.buf ++ inP c.buf).map toG) c.buf.outLen with
-          | none => ∃ b', applySubtable (recurseAt MAX_NESTING_LEVEL) true c st = .ok ({ c with buf := b' }, false) ∧ b' = c.buf
-          | some (gs', nxt) => ∃ b', applySubtable … c st = .ok ({ c with buf := b' }, true) ∧ Inv b' ∧
-              (outP b' ++ inP b').map projF = gs'.map piGF ∧ b'.outLen = nxt
+/-- **C06, contextual, step 3: one application of a contextual subtable at the current glyph = `Spec.Subst.applySubtableAt`**, for
+    each of the six subtable kinds, on every state of the scan: same decision (coverage of the first glyph, rule set by glyph /
+    class, FIRST matching rule wins, the three sequences matched on the visible positions; a declined application leaves the
+    context untouched), and on success the new string — glyph ids, clusters, feature bits — is the specification's, the new
+    `out_len` is the specification's resume index, and the scan invariant holds again.  (`unsafe_to_break` /
+    `unsafe_to_break_from_outbuffer` between match and `apply_lookup` never panic and touch glyph-flag bits only.) -/
+theorem C06_context_subtable_refines_spec (l : Lookup) (hp : NoSkipFlags l.props) (Gr Rn level : Nat) (st : Subtable) (c : Ctx)
+    (hok : CtxStOk c.font Gr Rn st) (hlm : c.lookupMask < 2 ^ 32)
+    (hlmf : c.lookupMask &&& (U32MAX - Flag.DEFINED) = c.lookupMask)
+    (x : Info) (R : List Info) (h : CtxInv l c.lookupMask (Rn * Gr) Rn c) (hin : inP c.buf = x :: R) :
+    match applySubtableAt c.font level l.props c.lookupMask st ((outP c.buf ++ inP c.buf).map toG) c.buf.outLen with
+    | none => applySubtable (recurseAt MAX_NESTING_LEVEL) true c st = .ok (c, false)
+    | some (gs', nxt) => ∃ b', applySubtable (recurseAt MAX_NESTING_LEVEL) true c st = .ok ({ c with buf := b' }, true) ∧
+        (outP b' ++ inP b').map (fun y => (y.gid, y.cluster, featBits y.mask)) = gs'.map (fun g => (g.gid, g.cluster, featBits g.mask)) ∧
+        b'.outLen = nxt ∧ c.buf.outLen < nxt ∧ CtxInv l c.lookupMask (Rn * Gr) Rn { c with buf := b' } := by
+  rw [toG_eq_projG]
+  have hs : SubSimC (recurseAt MAX_NESTING_LEVEL) true c.font l c.lookupMask level (Rn * Gr) Rn st :=
+    ctx_subSimC C06_gen_buffer_variants.2 C06_gen_buffer_variants.1 63 true c.font l hp c.lookupMask Gr Rn level hlm hlmf st hok
+  have := hs c x R _ rfl h hin (RelF.refl _)
+  cases hr : applySubtableAt c.font level l.props c.lookupMask st ((outP c.buf ++ inP c.buf).map projG) c.buf.outLen with
+  | none => rw [hr] at this; exact this
+  | some p =>
+    obtain ⟨gs', nxt⟩ := p
+    rw [hr] at this
+    obtain ⟨b', hres, hI, hrel, hol, hlt, _⟩ := this
+    exact ⟨b', hres, hrel, hol, hlt, hI⟩
 
-      What is there: the three matchers (`matchInput_relF`, `matchLookahead_relF`, `matchBacktrack_relF`), `applyLookup_sim`
-      (which already yields `b'.outLen = last sequence position + 1` and `b'.outLen = out_len + n + 1 + growth`, i.e. the value
-      of the Spec's resume formula `last + 1 + (growth − (last − lastIn))` — examples above), `firstRule_find` (first matching
-      rule wins).  What is missing: (a) `unsafe_to_break` / `unsafe_to_break_from_outbuffer` between the match and
-      `apply_lookup`: totality on the scan invariant and "changes glyph-flag bits only" (`setGlyphFlags_flagsOnlyOn` gives the
-      second half; `setGlyphFlags_interior_out` gives totality under `cluster ≤ U32MAX`), transported through `RelF` / `CtxG` /
-      `Plain`; (b) unfolding the Spec's local `ctxRule` for the six constructors and identifying `r.input.map (· == ·)` /
-      class / coverage predicates with `fnPreds fn 0 n`.
+/-- **C06, contextual substitution (partial: the three glyph-flag bits of the masks are left out)**: for every font, every forward
+    lookup whose subtables are contextual subtables of the Spec's domain (`CtxStOk`: any mix of the six kinds) and whose flags
+    exclude nothing, every lookup mask made of feature bits, and every well-formed buffer of plain glyphs, the streaming
+    interpreter (`apply_string`: forward scan, matchers, `apply_lookup` with its nested lookups, `sync`) succeeds and yields
+    exactly the glyph string of the OpenType model in glyph ids, clusters and FEATURE bits, for every fuel (the two scans take
+    their steps in lockstep).  Outside the Spec's documented domain remain: (a) the glyph-flag bits — a successful match sets
+    `unsafe_to_break` / `unsafe_to_concat` in the masks of the matched span, which the specification does not describe (hence
+    `_partial`, as `C06_ligature_subst_flags_partial`); (b) `CtxG`'s "every glyph has a feature bit" (true of every shaping run:
+    the global bit; `exCtxMask0` shows it is needed).  The budgets: `len · (1 + Rn · Gr) ≤ max_len` and `len · Rn ≤ max_ops`
+    (satisfied by the crate's own budgets `max_len ≥ 64 · len`, `max_ops ≥ 1024 · len` whenever `Rn · Gr ≤ 63`). -/
+theorem C06_context_subst_refines_spec_partial (l : Lookup) (Gr Rn : Nat) (c : Ctx)
+    (hall : ∀ st ∈ l.subtables, CtxStOk c.font Gr Rn st) (hp : NoSkipFlags l.props) (fuel : Nat)
+    (hlm : c.lookupMask < 2 ^ 32) (hlmf : c.lookupMask &&& (U32MAX - Flag.DEFINED) = c.lookupMask)
+    (hrnd : c.random = false) (hps : c.perSyllable = false)
+    (hfl : c.buf.flags &&& Gen.Buf.produceUnsafeToConcat = 0)
+    (hsu : c.buf.successful = true) (hlen : c.buf.len ≤ c.buf.info.length) (hout : c.buf.out.length = c.buf.info.length)
+    (hbud : c.buf.len * (1 + Rn * Gr) ≤ c.buf.maxLen) (hops : (((c.buf.len * Rn : Nat)) : Int) ≤ c.buf.maxOps)
+    (hgl : ∀ x ∈ c.buf.info.take c.buf.len, Plain x ∧ CtxG x) :
+    ∃ c', applyString c l fuel = .ok c' ∧ c'.buf.successful = true ∧ c'.buf.len ≤ c'.buf.info.length ∧
+      (c'.buf.info.take c'.buf.len).map (fun x => (x.gid, x.cluster, featBits x.mask))
+        = (applyLookupFwd c.font c.buf.level l c.lookupMask fuel ((c.buf.info.take c.buf.len).map toG) 0).map
+            (fun g => (g.gid, g.cluster, featBits g.mask)) := by
+  rw [toG_eq_projG]
+  exact applyString_simC l (ctx_not_reverse l (fun st hst => (hall st hst).1)) hp C06_gen_buffer_variants.2 c (Rn * Gr) Rn hlmf
+    (fun st hst => ctx_subSimC C06_gen_buffer_variants.2 C06_gen_buffer_variants.1 63 true c.font l hp c.lookupMask Gr Rn
+      c.buf.level hlm hlmf st (hall st hst))
+    fuel hrnd hps hfl hsu hlen hout hbud hops hgl
 
-  (4) the forward scan:
+/-! non-vacuity of steps 3 and 4: the chain format 3 lookup and the two-rule Context format 1 lookup of `exCtxFont` above
+    satisfy `CtxStOk exCtxFont 2 2`; `exCtxCtx` satisfies the buffer hypotheses (the run and the specification's string are the
+    `decide` examples above: `9 11 12 20 2 3 9 1 2 4`, resume index 5; `9 31 2 3 9 31 2 4`) -/
+def exCtx_nested (idx : Nat) (hidx : idx = 1 ∨ idx = 2 ∨ idx = 3 ∨ idx = 4) (l : Lookup)
+    (hl : exCtxFont.lookups[idx]? = some l) : NestedSts 2 l.subtables := by
+  rcases hidx with rfl | rfl | rfl | rfl <;> (simp only [exCtxFont] at hl; cases hl) <;>
+    (refine ⟨by decide, ?_, ?_⟩
+     · intro st hst cov alts he; simp only [List.mem_singleton] at hst; subst hst; cases he
+     · intro st hst ss hss; simp only [List.mem_singleton] at hst; subst hst
+       simp only [Subtable.seqsOf, List.mem_singleton, List.not_mem_nil] at hss
+       try (first | (subst hss; decide) | exact absurd hss id))
+example : ∀ st ∈ exCtxLookup.subtables, CtxStOk exCtxFont 2 2 st := by
+  intro st hst
+  simp only [exCtxLookup, List.mem_singleton] at hst
+  subst hst
+  refine ⟨rfl, ?_⟩
+  intro p hp
+  simp only [Subtable.ctxRules, List.mem_singleton] at hp
+  subst hp
+  refine ⟨by decide, by decide, ?_⟩
+  intro r hr l hl
+  simp only [List.mem_cons, List.not_mem_nil, or_false] at hr
+  rcases hr with rfl | rfl
+  · exact exCtx_nested 1 (Or.inl rfl) l hl
+  · exact exCtx_nested 2 (Or.inr (Or.inl rfl)) l hl
+example : ∀ st ∈ exCtxLookup5.subtables, CtxStOk exCtxFont 2 2 st := by
+  intro st hst
+  simp only [exCtxLookup5, List.mem_singleton] at hst
+  subst hst
+  refine ⟨rfl, ?_⟩
+  intro p hp
+  simp only [Subtable.ctxRules, List.flatMap_cons, List.flatMap_nil, List.map_cons, List.map_nil, List.append_nil,
+    List.mem_cons, List.not_mem_nil, or_false] at hp
+  rcases hp with rfl | rfl
+  · refine ⟨by decide, by decide, ?_⟩
+    intro r hr l hl
+    simp only [List.mem_singleton] at hr
+    subst hr
+    exact exCtx_nested 3 (Or.inr (Or.inr (Or.inl rfl))) l hl
+  · refine ⟨by decide, by decide, ?_⟩
+    intro r hr l hl
+    simp only [List.mem_singleton] at hr
+    subst hr
+    exact exCtx_nested 4 (Or.inr (Or.inr (Or.inr rfl))) l hl
+example : NoSkipFlags exCtxLookup.props ∧ exCtxCtx.lookupMask < 2 ^ 32 ∧
+    exCtxCtx.lookupMask &&& (U32MAX - Flag.DEFINED) = exCtxCtx.lookupMask ∧ exCtxCtx.random = false ∧
+    exCtxCtx.perSyllable = false ∧ exCtxCtx.buf.flags &&& Gen.Buf.produceUnsafeToConcat = 0 ∧
+    exCtxCtx.buf.len * (1 + 2 * 2) ≤ exCtxCtx.buf.maxLen ∧ (((exCtxCtx.buf.len * 2 : Nat)) : Int) ≤ exCtxCtx.buf.maxOps ∧
+    exCtxCtx.buf.out.length = exCtxCtx.buf.info.length := by decide
+/-- the scan invariant on the mid-scan state `exCtxStepCtx` ("9" out, "1 2 3 …" to come), and the step on it -/
+example : CtxInv exCtxLookup 8 (2 * 2) 2 exCtxStepCtx :=
+  ⟨⟨by decide, by decide, by decide, by decide, by decide, by decide⟩, by decide, by decide, by decide, by decide, by decide,
+    by decide, by decide, by decide, by decide, by decide⟩
+example : (match applySubtable (recurseAt MAX_NESTING_LEVEL) true exCtxStepCtx (.chain3 [[9]] [[1], [2]] [[3]] [(0, 1), (2, 2)]) with
+    | .ok (c', ok) => (ok, (outP c'.buf ++ inP c'.buf).map (·.gid), c'.buf.outLen) == (true, [9, 11, 12, 20, 2, 3, 9, 1, 2, 4], 5)
+    | .error _ => false) = true := by decide
 
-        theorem C06_context_subst_refines_spec_NOT_PROVED (l : Lookup) (hall : every subtable contextual as in (3)) (hp : NoSkipFlags l.props)
-            (c : Ctx) (fuel : Nat) (…Part 5's hypotheses without monotone clusters / level…)
-            (hplain : ∀ x ∈ c.buf.info.take c.buf.len, Plain x ∧ CtxG x)
-            (hbudLen : c.buf.len * (1 + R · Gr) ≤ c.buf.maxLen) (hbudOps : c.buf.len * R ≤ c.buf.maxOps)   -- R = max records per rule
-            : ∃ c', applyString c l fuel = .ok c' ∧ c'.buf.successful = true ∧
-                (c'.buf.info.take c'.buf.len).map (fun x => (x.gid, x.cluster, featBits x.mask))
-                  = (applyLookupFwd c.font c.buf.level l c.lookupMask fuel ((c.buf.info.take c.buf.len).map toG) 0).map
-                      (fun g => (g.gid, g.cluster, featBits g.mask))
+/-! ### Part 7 — NOT PROVED (nothing below is claimed)
 
-      by the generic scheme with the potentials `out_len + |in| · (1 + R · Gr) ≤ max_len` and `|in| · R ≤ max_ops` (every
-      application consumes at least one input glyph, adds at most `R · Gr` glyphs and spends at most `R` operations).
-  (5) mixed lookups; ignore flags on the contextual lookup (`visibleFrom` / `visibleBefore` as filters); deleting nested
-      sequences (`delta < 0` branch of `apply_lookup`). -/
+  (5a) lookups that MIX contextual subtables with simple / ligature subtables: `SubSimC` instances for the other kinds are
+       missing (the simple kinds need `StepGood → StepGoodC`, i.e. the potentials under growth of a top-level multiple
+       substitution; the ligature kind needs `CtxG` / `Plain` through `ligate_input`).
+  (5b) ignore flags on the contextual lookup or default-ignorable glyphs: the skipping iterator as a filter on visibility
+       (`visibleFrom` / `visibleBefore` of the Spec); `match_positions` are then not consecutive.
+  (5c) nested lookups that shrink the string (empty sequences: the `delta < 0` branch of `apply_lookup`) or that are
+       themselves contextual (more than one nesting level).
+  (5d) the glyph-flag bits of the masks (no specification of `unsafe_to_break` on the Spec side). -/
 
 end RbModel.Gsub
